@@ -245,6 +245,57 @@ func (pr *prover) factsAt(pt point) ([]fact, []term) {
 }
 
 // edgePoint: the program point "at the end of pred, taking the edge to succ".
+// trueOnlyWithNumOut: every way the boolean function h returns true passes a point where NumOut() of the
+// type of its k-th parameter is known to be at least need.
+func (pr *prover) trueOnlyWithNumOut(h *ssa.Function, k int, need int64, depth int) bool {
+	var outs []*ssa.Call
+	an.EachInstr(h, func(in ssa.Instruction) {
+		if nc, ok := in.(*ssa.Call); ok && nc.Call.IsInvoke() && nc.Call.Method.Name() == "NumOut" && (isTypeOf(nc.Call.Value, h.Params[k]) || isTypeOfAny(nc.Call.Value, h.Params[k])) {
+			outs = append(outs, nc)
+		}
+	})
+	if len(outs) == 0 || h.Signature.Results().Len() != 1 {
+		return false
+	}
+	known := func(pt point) bool {
+		for _, nc := range outs {
+			if l, ok := pr.lowerBound(nc, pt, depth+1); ok && l >= need {
+				return true
+			}
+		}
+		return false
+	}
+	good, rets := true, 0
+	an.EachInstr(h, func(in ssa.Instruction) {
+		ret, ok := in.(*ssa.Return)
+		if !ok || !good {
+			return
+		}
+		rets++
+		v := ret.Results[0]
+		if c, isC := an.ConstBool(v); isC {
+			if c && !known(point{blk: ret.Block()}) {
+				good = false
+			}
+			return
+		}
+		ph, isPhi := v.(*ssa.Phi)
+		if !isPhi {
+			good = false
+			return
+		}
+		for i, e := range ph.Edges {
+			if c, isC := an.ConstBool(e); isC && !c {
+				continue
+			}
+			if !known(edgePoint(ph.Block().Preds[i], ph.Block())) {
+				good = false
+			}
+		}
+	})
+	return good && rets > 0
+}
+
 func edgePoint(pred, succ *ssa.BasicBlock) point {
 	pt := point{blk: pred}
 	if ifi, ok := pred.Instrs[len(pred.Instrs)-1].(*ssa.If); ok && len(pred.Succs) == 2 && pred.Succs[0] != pred.Succs[1] {
@@ -639,6 +690,23 @@ func (pr *prover) le(a, b term, pt point, depth int, seen map[[2]ssa.Value]bool)
 				if found {
 					return true
 				}
+				// ... or a module predicate over the function value, found true on the way here, that answers
+				// true only where it has seen that many results
+				for _, g := range an.GuardsAt(pt.blk) {
+					hc, ok := g.Cond.(*ssa.Call)
+					if !ok || !g.True {
+						continue
+					}
+					h := hc.Call.StaticCallee()
+					if h == nil || !pr.p.InModule(h) || h.Blocks == nil || len(h.Params) != len(hc.Call.Args) {
+						continue
+					}
+					for k, arg := range hc.Call.Args {
+						if eqVal(arg, c.Args[0]) && pr.trueOnlyWithNumOut(h, k, a.off-b.off, depth+1) {
+							return true
+						}
+					}
+				}
 			}
 		}
 	}
@@ -728,6 +796,7 @@ func lenOf(x ssa.Value) (term, bool) {
 }
 
 func runP9s(p *an.Prog, r *an.Result, only func(*ssa.Function) bool) {
+	mapRangeProg = p
 	roles := GetRoles(p)
 	pr := &prover{p: p, nn: &nonNeg{p: p, memo: map[*ssa.Function]int{}}}
 	outOfScope := map[string]int{}
@@ -1294,7 +1363,34 @@ func returnsEntryListOf(p *an.Prog, fn *ssa.Function) bool {
 	if fn == nil || fn.Blocks == nil || !p.InModule(fn) || len(fn.Params) == 0 || fn.Signature.Results().Len() != 1 {
 		return false
 	}
+	mapRangeProg = p
 	its := callsNamed(fn, "(reflect.Value).MapRange")
+	if len(its) == 0 {
+		// collected by a helper that is handed the map, sorted here, returned
+		var helper *ssa.Call
+		an.EachInstr(fn, func(in ssa.Instruction) {
+			if c, ok := in.(*ssa.Call); ok {
+				if h := c.Call.StaticCallee(); h != nil && p.InModule(h) && h != fn && len(c.Call.Args) > 0 && c.Call.Args[0] == ssa.Value(fn.Params[0]) && collectsEntriesOf(p, h) {
+					helper = c
+				}
+			}
+		})
+		if helper == nil {
+			return false
+		}
+		if ok, _ := sortedBeforeUse(helper, nil); !ok {
+			return false
+		}
+		okRet := true
+		an.EachInstr(fn, func(in ssa.Instruction) {
+			if ret, isRet := in.(*ssa.Return); isRet {
+				if !an.Reaches(resultsOf(ret)[0], an.StepValue, func(v ssa.Value) bool { return v == ssa.Value(helper) }) {
+					okRet = false
+				}
+			}
+		})
+		return okRet
+	}
 	if len(its) != 1 || its[0].Call.Args[0] != ssa.Value(fn.Params[0]) || !mapRangeCollectedAndSorted(fn, its[0]) {
 		return false
 	}
@@ -1340,6 +1436,9 @@ func positiveLen(p *an.Prog, v ssa.Value) bool {
 // idx one of its two parameters, base the very slice that is being sorted (a captured variable
 // with a single assignment, or a captured value).
 func sliceFuncContract(fn *ssa.Function, base, idx ssa.Value) bool {
+	if methodComparatorContract(fn, base, idx) {
+		return true
+	}
 	parent := fn.Parent()
 	par, ok := idx.(*ssa.Parameter)
 	if parent == nil || !ok || len(fn.Params) != 2 || (par != fn.Params[0] && par != fn.Params[1]) {
@@ -1819,4 +1918,118 @@ func p9Base(p *an.Prog, v ssa.Value) string {
 		}
 	}
 	return an.TypeName(v.Type())
+}
+
+// collectsEntriesOf: h walks Params[0].MapRange() and appends exactly once per step to the slice it returns.
+func collectsEntriesOf(p *an.Prog, h *ssa.Function) bool {
+	if h.Blocks == nil || len(h.Params) == 0 || h.Signature.Results().Len() != 1 {
+		return false
+	}
+	its := callsNamed(h, "(reflect.Value).MapRange")
+	if len(its) != 1 || its[0].Call.Args[0] != ssa.Value(h.Params[0]) {
+		return false
+	}
+	var appends []*ssa.Call
+	an.EachInstr(h, func(in ssa.Instruction) {
+		if c, ok := in.(*ssa.Call); ok {
+			if b, isB := c.Call.Value.(*ssa.Builtin); isB && b.Name() == "append" {
+				appends = append(appends, c)
+			}
+		}
+	})
+	nexts := callsNamed(h, "(*reflect.MapIter).Next")
+	if len(appends) != 1 || len(nexts) != 1 || !reachesBlock(appends[0].Block(), appends[0].Block()) {
+		return false
+	}
+	if !an.AllPathsGuarded(appends[0].Block(), func(cond ssa.Value, taken bool) bool { return taken && cond == ssa.Value(nexts[0]) }) {
+		return false
+	}
+	ok := true
+	an.EachInstr(h, func(in ssa.Instruction) {
+		if ret, isRet := in.(*ssa.Return); isRet {
+			if !an.Reaches(resultsOf(ret)[0], an.StepValue, func(v ssa.Value) bool { return v == ssa.Value(appends[0]) }) {
+				ok = false
+			}
+		}
+	})
+	return ok
+}
+
+// methodComparatorContract: fn is a method less(i, j) of a slice type that indexes its receiver, and its only
+// use in the module is as the comparator `T(x).less` of sort.Slice / sort.SliceStable applied to x itself:
+// package sort calls it with 0 <= i, j < len(x).
+func methodComparatorContract(fn *ssa.Function, base, idx ssa.Value) bool {
+	if fn.Signature.Recv() == nil || len(fn.Params) != 3 {
+		return false
+	}
+	isRecv := base == ssa.Value(fn.Params[0])
+	if u, ok := base.(*ssa.UnOp); ok && u.Op == token.MUL {
+		if al, ok := u.X.(*ssa.Alloc); ok {
+			if st := an.Stores(al); len(st) == 1 && st[0] == ssa.Value(fn.Params[0]) {
+				isRecv = true // the spilled receiver
+			}
+		}
+	}
+	if !isRecv {
+		return false
+	}
+	par, ok := idx.(*ssa.Parameter)
+	if !ok || (par != fn.Params[1] && par != fn.Params[2]) {
+		return false
+	}
+	if _, isSlice := fn.Params[0].Type().Underlying().(*types.Slice); !isSlice {
+		return false
+	}
+	prog := mapRangeProg
+	if prog == nil {
+		return false
+	}
+	uses, good := 0, true
+	for _, f := range prog.Funcs {
+		an.EachInstr(f, func(in ssa.Instruction) {
+			switch x := in.(type) {
+			case *ssa.MakeClosure:
+				bf, ok := x.Fn.(*ssa.Function)
+				if !ok || unwrapBound(bf) != fn || bf == fn {
+					return
+				}
+				uses++
+				if len(x.Bindings) != 1 || x.Referrers() == nil {
+					good = false
+					return
+				}
+				recv := x.Bindings[0]
+				for _, u := range *x.Referrers() {
+					c, isCall := u.(*ssa.Call)
+					if !isCall {
+						if _, dbg := u.(*ssa.DebugRef); !dbg {
+							good = false
+						}
+						continue
+					}
+					cn := an.CallName(&c.Call)
+					if (cn != "sort.Slice" && cn != "sort.SliceStable") || len(c.Call.Args) != 2 || c.Call.Args[1] != ssa.Value(x) {
+						good = false
+						continue
+					}
+					sorted := an.StripIface(c.Call.Args[0])
+					if mi, ok := sorted.(*ssa.MakeInterface); ok {
+						sorted = mi.X
+					}
+					src := recv
+					if ct, ok := recv.(*ssa.ChangeType); ok {
+						src = ct.X
+					}
+					if sorted != src && sorted != recv && !sameValue(sorted, src) {
+						good = false
+					}
+				}
+			case *ssa.Call:
+				if x.Call.StaticCallee() == fn {
+					good = false // called directly: no contract about the indices
+				}
+			}
+		})
+	}
+	return good && uses > 0
 }
